@@ -393,7 +393,7 @@ func ruleEFF(w *World, r *Report, o effOpts) {
 	// E2
 	allowedWrite := map[string]int{
 		"(*par1.Decoder).Repair": 1, "(*par2.Decoder).Repair": 1,
-		"(*par1.Encoder).Write": 2, "(*par2.Encoder).Write": 2,
+		"(*par1.Encoder).Write": 1, "(*par2.Encoder).Write": 1, // at least one site each; index and volumes may share one helper
 	}
 	got := map[string]int{}
 	var writeSites []ioSite
@@ -402,7 +402,7 @@ func ruleEFF(w *World, r *Report, o effOpts) {
 			continue
 		}
 		writeSites = append(writeSites, s)
-		name := shortName(s.Fn)
+		name := w.writerOwner(s.Fn)
 		if _, ok := allowedWrite[name]; ok {
 			got[name]++
 			if o.e2 {
@@ -466,11 +466,11 @@ func ruleEFF(w *World, r *Report, o effOpts) {
 	}
 	if o.e4 {
 		check("E4:create", createRootNames, func(f *ssa.Function) bool {
-			n := shortName(f)
+			n := w.writerOwner(f)
 			return n == "(*par1.Encoder).Write" || n == "(*par2.Encoder).Write" || isDefaultFileIOWrite(f)
 		}, 12)
 		check("E4:repair", repairRootNames, func(f *ssa.Function) bool {
-			n := shortName(f)
+			n := w.writerOwner(f)
 			return n == "(*par1.Decoder).Repair" || n == "(*par2.Decoder).Repair" || isDefaultFileIOWrite(f)
 		}, 6)
 	}
@@ -533,4 +533,35 @@ func writeImplProblem(m mutSite) string {
 		}
 	}
 	return ""
+}
+
+// writerOwner names the designated writer a function belongs to: the writer itself, one of
+// its function literals, or a private helper its code was moved into (its region) - provided
+// no other function of the module calls that helper. Otherwise the function's own name.
+func (w *World) writerOwner(fn *ssa.Function) string {
+	n := shortName(fn)
+	for _, owner := range []string{"(*par1.Decoder).Repair", "(*par2.Decoder).Repair", "(*par1.Encoder).Write", "(*par2.Encoder).Write"} {
+		if n == owner {
+			return owner
+		}
+		of := w.Fn(owner)
+		if of == nil || !inRegion(of, fn) {
+			continue
+		}
+		// every static caller of fn must itself be in the owner's region
+		only := true
+		for _, g := range w.Funcs {
+			for _, f := range withAnon(g) {
+				for _, c := range callInstrs(f) {
+					if c.Common().StaticCallee() == fn && !inRegion(of, f) {
+						only = false
+					}
+				}
+			}
+		}
+		if only {
+			return owner
+		}
+	}
+	return n
 }
